@@ -1217,6 +1217,8 @@ func sharedTablesImmutable(c *Ctx, info *effectsInfo, sp *ssa.Package, shared []
 			cont = append(cont, t)
 			walk(u.Elem(), d+1)
 		case *types.Array:
+			// an array is shared through the slices taken of it
+			cont = append(cont, t, types.NewSlice(u.Elem()))
 			walk(u.Elem(), d+1)
 		case *types.Pointer:
 			walk(u.Elem(), d+1)
@@ -1268,7 +1270,7 @@ func sharedTablesImmutable(c *Ctx, info *effectsInfo, sp *ssa.Package, shared []
 						addr = fa.X // a field of an element: b.up[i].enabled = …
 					}
 					if ia, ok := addr.(*ssa.IndexAddr); ok && isCont(ia.X.Type()) {
-						if _, isSlice := ia.X.Type().Underlying().(*types.Slice); isSlice {
+						if true {
 							// element stores into freshly made local slices are not writes to a table
 							if _, fresh := ia.X.(*ssa.MakeSlice); fresh {
 								continue
